@@ -8,7 +8,9 @@ from .. import paths, waiters
 from ..core import FUNC, call_attr, calls_in, const, dotted, is_const, norm, text, walk_local
 
 EXPLANATION = [
+    'C09.stale-loopvar: no comprehension or generator expression in bumble.l2cap reads the variable of a `for` loop that has already finished (it would be the last item for every element): table registrations built from a list of channels key each channel by its own identifiers.',
     'C09.cid-domain: every keyed access (subscript, get/pop, membership, set intersection) to a per-connection channel table uses a key of that table\'s numbering: `channels` own-allocated identifiers (find_free_*, channel.source_cid), `le_coc_channels` peer-allocated ones (request.source_cid in a request handler, *.destination_cid); no method replaces a per-connection table as a whole.',
+    'C09.identifier-range: interval evaluation of ChannelManager.next_identifier over its paths shows that, for a previous identifier anywhere in 0..255, the identifier returned is in 1..255 and the one stored in 0..255 (induction from the initial 0): it always fits the one-byte field of a signalling frame and is never the invalid 0.',
     'C09.allocator-scan: every identifier a find_free_* allocator returns was individually tested `not in` the table it was given (no block allocation from the first free one).',
     'C09.response-echo: both channel classes answer a Disconnection Request with the request\'s own identifier, destination_cid and source_cid; the manager matches the response by the echoed source CID.',
     'C09.symmetric: the set of ChannelManager tables a channel of each class is '
@@ -434,6 +436,62 @@ def cid_domain(ctx, rule='C09.cid-domain'):
     found = [(name, n) for name, m in cm.methods.items() for n in wipes(m)]
     R.check(len(control) == 1 and not found, rule, f'{CM} | per-link tables never replaced', 'no method assigns a whole per-connection table (positive control matched)',
             f'a per-connection channel table is replaced as a whole in {sorted({n for n, _ in found})}: channels already open on that link vanish from the table (their credits / PDUs are dropped as unknown)', p.loc(found[0][1]) if found else '')
+
+
+def signalling_identifier(ctx, rule='C09.identifier-range'):
+    """The signalling identifier handed out per connection stays in 1..255 (one byte, 0 is invalid) for every previous
+    value: by induction from 0, with the previous identifier anywhere in 0..255."""
+    from ..intervals import interval
+    R, p = ctx.r, ctx.p
+    fn = p.find(f'{CM}.next_identifier')
+    if fn is None:
+        R.bad(rule, f'{CM}.next_identifier', 'anchor missing')
+        return
+
+    class D(paths.Domain):
+        # value: interval of `identifier` (None = unknown)
+        def event(self, node, v):
+            if isinstance(node, ast.Assign) and len(node.targets) == 1 and isinstance(node.targets[0], ast.Name):
+                env = dict(v)
+                env[node.targets[0].id] = interval(node.value, ENV | {k: x for k, x in env.items() if x is not None})
+                return (tuple(sorted(env.items(), key=lambda kv: kv[0])),)
+            if isinstance(node, ast.Return) and node.value is not None:
+                env = dict(v)
+                got = interval(node.value, ENV | {k: x for k, x in env.items() if x is not None})
+                returned.append(got)
+            if isinstance(node, ast.Assign) and isinstance(node.targets[0], ast.Subscript) and dotted(node.targets[0].value) == 'self.identifiers':
+                env = dict(v)
+                stored.append(interval(node.value, ENV | {k: x for k, x in env.items() if x is not None}))
+            return (v,)
+
+        def assume(self, atom, truth, v):
+            # `x == c` refines x to c on the true branch and removes c from an end of the range on the false branch
+            if isinstance(atom, ast.Compare) and len(atom.ops) == 1 and isinstance(atom.ops[0], ast.Eq) and isinstance(atom.left, ast.Name) and isinstance(atom.comparators[0], ast.Constant):
+                env = dict(v)
+                cur, c = env.get(atom.left.id), atom.comparators[0].value
+                if cur is not None:
+                    if truth:
+                        if not (cur[0] <= c <= cur[1]):
+                            return ()
+                        env[atom.left.id] = (c, c)
+                    else:
+                        if cur == (c, c):
+                            return ()
+                        if cur[0] == c:
+                            env[atom.left.id] = (c + 1, cur[1])
+                        elif cur[1] == c:
+                            env[atom.left.id] = (cur[0], c - 1)
+                    return (tuple(sorted(env.items(), key=lambda kv: kv[0])),)
+            return (v,)
+    # the previous identifier: whatever was stored (0..255 by induction), 0 for a new connection
+    prev = [norm(c) for c in ast.walk(fn) if isinstance(c, ast.Call) and isinstance(c.func, ast.Attribute) and c.func.attr in ('setdefault', 'get') and dotted(c.func.value) == 'self.identifiers']
+    prev += [norm(c) for c in ast.walk(fn) if isinstance(c, ast.Subscript) and isinstance(c.ctx, ast.Load) and dotted(c.value) == 'self.identifiers']
+    ENV = {t: (0, 255) for t in prev}
+    returned, stored = [], []
+    paths.run(fn, D(), ())
+    ok = bool(prev) and bool(returned) and all(r is not None and 1 <= r[0] and r[1] <= 255 for r in returned) and bool(stored) and all(s_ is not None and 0 <= s_[0] and s_[1] <= 255 for s_ in stored)
+    R.check(ok, rule, f'{CM}.next_identifier', f'returns {returned} and stores {stored} for a previous identifier in 0..255',
+            f'for a previous identifier in 0..255 the function returns a value in {returned} (stored {stored}): an identifier outside 1..255 does not fit the one-byte field (struct.error in the middle of an open / close after ~255 signalling requests on a link) or is the invalid 0', p.loc(fn))
 
 
 def keying(ctx):
@@ -862,12 +920,19 @@ def classic_close_releases(ctx):
                 'a classic channel is closed while a local disconnect() is waiting and the waiter is not resolved (simultaneous disconnect hangs)', p.loc(m), bad[:2])
 
 
+def stale_loopvar_rule(ctx):
+    from ..stale_loopvar import stale_loopvar
+    stale_loopvar(ctx, 'C09.stale-loopvar', ['bumble.l2cap'])
+
+
 RULES = [
+    ('C09.stale-loopvar', stale_loopvar_rule),
     ('C09.close-releases', classic_close_releases),
     ('C09.allocator-scan', allocator_scan),
     ('C09.response-echo', response_echo),
     ('C09.symmetric', symmetric),
     ('C09.keying', keying),
+    ('C09.identifier-range', signalling_identifier),
     ('C09.cid-domain', cid_domain),
     ('C09.waiters', l2cap_waiters),
     ('C09.close-releases', close_releases),
